@@ -44,15 +44,22 @@ class Build:
             shutil.rmtree(self.dir, ignore_errors=True)
 
     # ------------------------------------------------------------------
+    # The sanitizer variant observes what property C15 lists and nothing more: AddressSanitizer (out-of-bounds, use after free,
+    # mismatched deallocation) plus the UBSan checks that correspond to reads outside objects, uninitialised values and arithmetic
+    # traps.  Signed overflow of shifts / multiplications, memcpy(null, null, 0) and misaligned access are undefined behaviour the
+    # property does not speak about (no trap and no memory error on this platform): enabling them made the check demand more than the
+    # property states (DESIGN.md section 11).
+    SAN = "-fsanitize=address,bounds,null,bool,enum,integer-divide-by-zero,object-size,return,unreachable,vla-bound"
+    SAN_NORECOVER = "-fno-sanitize-recover=bounds,null,bool,enum,integer-divide-by-zero,object-size,return,unreachable,vla-bound"
+
     def _cxx(self):
         if self.variant == "san":
-            return ["clang++-14", "-std=c++17", "-O1", "-g", "-fsanitize=address,undefined",
-                    "-fno-sanitize-recover=undefined", "-fno-omit-frame-pointer", "-Wno-everything"]
+            return ["clang++-14", "-std=c++17", "-O1", "-g", self.SAN, self.SAN_NORECOVER, "-fno-omit-frame-pointer", "-Wno-everything"]
         return ["g++", "-std=c++17", "-Wno-error", "-w"]
 
     def _cc(self):
         if self.variant == "san":
-            return ["clang-14", "-O1", "-g", "-fsanitize=address,undefined", "-fno-omit-frame-pointer", "-Wno-everything"]
+            return ["clang-14", "-O1", "-g", self.SAN, self.SAN_NORECOVER, "-fno-omit-frame-pointer", "-Wno-everything"]
         return ["gcc", "-O2", "-w"]
 
     def _defs(self):
